@@ -324,6 +324,65 @@ def loop_stage(ctx):
     return directed[:8]
 
 
+def blocked_stage(ctx):
+    """`BlockedM.blocked` (Lean) vs the real find_blocked_reactions: the first solution (`get_solution`) and the ranges of the FVA at fraction 0
+    are recorded from the run and handed to the model, which has to send the same reactions to the FVA and report the same reactions."""
+    import importlib
+    from fractions import Fraction
+    var = importlib.import_module("cobra.flux_analysis.variability")
+    rng = __import__("random").Random(f"c19-blocked-{ctx.seed}-{ctx.attempt}")
+    n = ctx.scale(60, 1200)
+    lines, reals, errors = [], [], {}
+    for _ in range(n):
+        spec = gen_spec(rng)
+        with warnings.catch_warnings():
+            warnings.simplefilter("ignore")
+            m = coreops.build_model(spec)
+            idx = {r.id: i for i, r in enumerate(m.reactions)}
+            rl = pick_list(rng, list(idx))
+            seen = {}
+            orig_sol, orig_fva = var.get_solution, var.flux_variability_analysis
+
+            def get_solution(model, reactions=None, **k):
+                s = orig_sol(model, reactions=reactions, **k)
+                seen["sol"] = {r: float(v) for r, v in s.fluxes.items()}
+                return s
+
+            def fva(model, reaction_list=None, **k):
+                seen["to_fva"] = [x if isinstance(x, str) else x.id for x in reaction_list]
+                df = orig_fva(model, reaction_list=reaction_list, **k)
+                seen["lo"] = {r: float(v) for r, v in df["minimum"].items()}
+                seen["hi"] = {r: float(v) for r, v in df["maximum"].items()}
+                return df
+            var.get_solution, var.flux_variability_analysis = get_solution, fva
+            try:
+                got = find_blocked_reactions(m, reaction_list=None if rl is None else list(rl), processes=1)
+            except Exception as e:
+                errors[type(e).__name__] = errors.get(type(e).__name__, 0) + 1
+                continue
+            finally:
+                var.get_solution, var.flux_variability_analysis = orig_sol, orig_fva
+            if "lo" not in seen or any(v != v for v in list(seen["sol"].values()) + list(seen["lo"].values()) + list(seen["hi"].values())):
+                errors["nan-or-no-fva"] = errors.get("nan-or-no-fva", 0) + 1
+                continue
+            ids = list(idx)
+            q = lambda d: [str(Fraction(d.get(r, 0.0))) for r in ids]
+            req = [idx[r] for r in (ids if rl is None else rl)]
+            lines.append(json.dumps({"build": "findBlocked", "cut": str(Fraction(m.tolerance)), "req": req, "sol": q(seen["sol"]), "lo": q(seen["lo"]), "hi": q(seen["hi"])}))
+            reals.append({"blocked": sorted(idx[r] for r in got), "to_fva": sorted(idx[r] for r in seen["to_fva"]), "spec": spec, "rl": rl})
+    outs = [json.loads(l) for l in common.run_driver_persistent("auxprob", lines)] if lines else []
+    bad, directed = 0, []
+    for real, o in zip(reals, outs):
+        if "bad-line" in o or sorted(o["blocked"]) != real["blocked"] or sorted(o["to_fva"]) != real["to_fva"]:
+            bad += 1
+            if bad <= 3:
+                ctx.broken.append({"kind": "correspondence", "name": "find_blocked_reactions vs BlockedM.blocked",
+                                   "detail": f"model {o}, code reported {real['blocked']} after sending {real['to_fva']} to the FVA", "spec": real["spec"]})
+            directed.append({"kind": "blocked", "spec": real["spec"], "pre": None, "open_exchanges": False, "reaction_list": real["rl"], "as_objects": False})
+    ctx.coverage["find_blocked_bookkeeping"] = {"runs_compared": len(outs), "mismatches": bad, "errors": errors}
+    return directed[:8]
+
+
 def run(ctx):
     if getattr(ctx, "replay", None):
         data = json.loads(open(ctx.replay).read())
@@ -336,7 +395,7 @@ def run(ctx):
                 return 1
         return 0
     common.proof_stage(ctx, "CobraModel.Props.C19", extra_scan=["CobraModel/Lemmas/Formulations.lean", "CobraModel/Lemmas/LP.lean", "CobraModel/Model/Fastcc.lean", "CobraModel/Lemmas/Fastcc.lean"] + auxcorr.SCAN)
-    directed = aux_stage(ctx) + loop_stage(ctx)
+    directed = aux_stage(ctx) + loop_stage(ctx) + blocked_stage(ctx)
     rng = ctx.rng
     n = ctx.scale(200, 5000)
     ran, tries = 0, 0
